@@ -44,6 +44,7 @@ class SimEventLoop(asyncio.BaseEventLoop):
         self.on_step = None  # callable(step, label) or None
         self.dead = False
         self.spin_skips = 0
+        self._last_pass_only_spin = False
 
     # ---- clock -----------------------------------------------------------------
     def time(self) -> float:
@@ -112,18 +113,28 @@ class SimEventLoop(asyncio.BaseEventLoop):
 
         ready = self._ready
         busy = False
+        live = 0
         for h in ready:
-            if not h._cancelled and not _is_spin(h):
-                busy = True
-                break
+            if not h._cancelled:
+                live += 1
+                if not _is_spin(h):
+                    busy = True
+                    break
 
-        if not busy and not self._stopping:
+        # A cancellation spinner may still make progress (cancel a task whose waiter was
+        # already done on the previous pass), so it is always run once; only when a whole
+        # pass consisted of spinners and all they did was re-schedule themselves is the
+        # loop "idle" in the sense that nothing but the passage of time can change it.
+        idle = (live == 0) or (not busy and self._last_pass_only_spin)
+        self._last_pass_only_spin = live > 0 and not busy
+        if idle and not self._stopping:
             if timers:
-                if ready:
+                if live:
                     self.spin_skips += 1
                 when = timers[0][0]
                 if when > self._vtime:
                     self._vtime = when
+                self._last_pass_only_spin = False
             else:
                 # nothing but (possibly) cancellation spinners and no timer: a real loop
                 # would idle or spin forever
